@@ -313,7 +313,7 @@ EPS = np.finfo(float).eps
 
 
 TOL_C = 32.0
-TOL_DEV = 512.0  # margin on the measured round-off of the emulated kernel route
+TOL_DEV = 2048.0  # margin on the measured round-off of the emulated kernel route
 
 
 def _scaled_cond(S):
